@@ -684,6 +684,42 @@ func runC20(c *Ctx) {
 		emit(&qPath{root: '$', parts: []qPart{{kind: 'k', name: "e"}, {kind: 'f', group: &qGroup{ops: []qOp{{path: &qPath{root: '@', parts: []qPart{{kind: 'k', name: "x"}, {kind: 'c', name: "Greater", args: []qArg{{path: keyless("Add", "ab")}}}}}}}}}, {kind: 'c', name: "Count"}}}, nil, "named/keyless-at-paths")
 		emit(&qPath{root: '$', parts: []qPart{{kind: 'k', name: "a"}, {kind: 'c', name: "AnyOf", args: []qArg{{group: &qGroup{mode: "OR", ops: []qOp{{path: keyless("Greater", "de")}}}}}}}}, nil, "named/keyless-at-paths")
 	}
+	// an element key and a root field of the SAME name in one condition (`$.orders[@.customer.Equal($.customer.id)]`): the `@` chain,
+	// prefixed by the chain of the collection, and the `$` chain live in different frames until the prefix is put in front
+	{
+		dk := func(ks ...string) *qPath {
+			p := &qPath{root: '$'}
+			for _, k := range ks {
+				p.parts = append(p.parts, qPart{kind: 'k', name: k})
+			}
+			return p
+		}
+		at := func(fn string, arg *qPath, ks ...string) *qPath {
+			p := &qPath{root: '@'}
+			for _, k := range ks {
+				p.parts = append(p.parts, qPart{kind: 'k', name: k})
+			}
+			if arg != nil {
+				p.parts = append(p.parts, qPart{kind: 'c', name: fn, args: []qArg{{path: arg}}})
+			} else {
+				p.parts = append(p.parts, qPart{kind: 'c', name: fn, args: []qArg{{lit: "1"}}})
+			}
+			return p
+		}
+		filt := func(coll []string, g *qGroup, tail ...qPart) *qPath {
+			p := dk(coll...)
+			p.parts = append(p.parts, qPart{kind: 'f', group: g})
+			p.parts = append(p.parts, tail...)
+			return p
+		}
+		cnt := qPart{kind: 'c', name: "Count"}
+		emit(filt([]string{"a"}, &qGroup{ops: []qOp{{path: at("Equal", dk("b", "c"), "b")}}}, cnt), nil, "named/same-name-in-both-frames")
+		emit(filt([]string{"a"}, &qGroup{ops: []qOp{{path: at("Equal", dk("c"), "c")}}}, cnt), nil, "named/same-name-in-both-frames")
+		emit(filt([]string{"a", "b"}, &qGroup{ops: []qOp{{path: at("Greater", dk("c", "d", "e"), "c", "d")}}}), nil, "named/same-name-in-both-frames")
+		emit(filt([]string{"a"}, &qGroup{mode: "OR", ops: []qOp{{group: &qGroup{mode: "OR", ops: []qOp{{path: &qPath{root: '$', parts: []qPart{{kind: 'k', name: "d"}, {kind: 'k', name: "e"}, {kind: 'c', name: "Equal", args: []qArg{{lit: "2"}}}}}}, {path: at("Equal", nil, "d")}}}}}}, cnt), nil, "named/same-name-in-both-frames")
+		emit(filt([]string{"a"}, &qGroup{ops: []qOp{{path: at("Equal", nil, "a")}, {path: at("AnyOf", dk("a", "x"), "a", "x")}}}, cnt), nil, "named/same-name-in-both-frames")
+		emit(filt([]string{"ab"}, &qGroup{ops: []qOp{{path: at("Equal", dk("ab"), "ab")}}}, qPart{kind: 'k', name: "ab"}), nil, "named/same-name-in-both-frames")
+	}
 	// the same condition text first as a condition of a filter (its first key is a key of the elements), then as a query of its
 	// own and as the operand of a top-level group (its first key is a root field), and once more the other way round
 	for round := 0; round < 2; round++ {
